@@ -28,11 +28,13 @@ PROPS = {
                   "model-checked by TLC; events logged from the real wrappers are validated by TLC (DistGFITrace.tla) "
                   "against the spec actions with log densities supplied directly by TensorFlow Probability",
         text="Every exported TFP wrapper (46) x 4 hand-written valid parameter points (2 scalar, 2 batched) plus keyword-only "
-             "parameterisations and a sample_shape point: histories simulate / assess / generate(None|value|Mask T|Mask F) / "
-             "update(None|value|Mask T|Mask F, changed args) / regenerate / project through the public GFI, each also through the "
-             "keyword-argument path with the same key. TLC checks score = LP(args,value), generate weight = LP if effectively "
-             "constrained else 0 and value = constraint, update weight = LP(new)-LP(old), support / dtype / shape of every fresh "
-             "sample, positional == keyword. Tolerance 8/256 nat (+ 2^-14 relative).",
+             "parameterisations (probs=, log_rate=, log_scale=) and a sample_shape=(2,) point: histories simulate / assess / "
+             "generate(None|value|Mask T|Mask F) / update(None|value|Mask T|Mask F, changed and unchanged args) / Trace.update / "
+             "importance / regenerate / project through the public GFI, the density-only operations and simulate also through the "
+             "keyword-argument form ((), {kw}) with the same key. TLC checks score = LP(args,value), generate weight = LP if "
+             "effectively constrained else 0 and value = constraint, update weight = LP(new)-LP(old), support / dtype / shape of "
+             "every fresh sample, positional == keyword. Tolerance 8/256 nat (+ 2^-14 relative). Quick tier: generate-with-Mask "
+             "events on 28 representative wrappers and jax_disable_jit elsewhere; thorough tier: everything with compiled control flow.",
         note="Trusted: TFP log_prob / validate_args support assertions as the oracle the property names; TLC; the "
              "hand-written table (wrapper name -> documented tfd class, parameter order, dtype). Regenerate weight, project and "
              "the discard are validated as auxiliary observations (C07/C10/C05 own them), not as C24 clauses.",
@@ -335,55 +337,73 @@ def _run_history(name, row, hid, key, tag, specs, kwtwin, sample_shape=None, ops
         return status == "ok"
 
     # ---- the history -------------------------------------------------------
-    # twin_ok=False on the operations that draw fresh randomness inside genjax (each compiles TFP's sampler
-    # again); the keyword-form twin is run for one sampling op (simulate) and for all density-only ops.
+    # twin_ok=False on the operations that draw fresh randomness inside genjax; the keyword-form twin is run for
+    # one sampling op (simulate) and for all density-only ops.  ops: "full" | "medium" | "short", "+mask" adds the
+    # generate-with-Mask events (they need compiled control flow, see step()).
+    kind = ops.split("+")[0]
     if not step("simulate", a1=1):
         return H.events
     step("assess")
-    step("project", sel=1)
-    step("project", sel=0)
-    if ops in ("full", "nomaskgen"):
-        step("update", "none", a1=2)                                   # value kept, args a -> b
-        step("update", "value", a1=2, vc=draw(2), changed=False)       # overwrite, args unchanged
-        step("update", "maskT", a1=1, vc=draw(1))                      # overwrite through a true mask, b -> a
-        step("update", "maskF", a1=2, vc=draw(2))                      # false mask: value kept, a -> b
-        step("assess")
-        step("regenerate", sel=0, a1=2, changed=False)
-        step("regenerate", sel=0, a1=1)                                # constrained above under a: b -> a is safe
-        step("regenerate", sel=1, a1=1, twin_ok=False)
-        step("regenerate", sel=0, a1=2)
+    if kind == "full":
         step("project", sel=1)
-        step("generate", "value", a1=1, vc=draw(1))
-        step("trupdate", "value", a1=2, vc=draw(1))                    # a-sample under b (supports are nested)
-        step("update", "none", a1=1)
-        step("generate", "none", a1=1, twin_ok=False)
-        step("update", "none", a1=2)
-        if ops == "full":
-            step("importance", "maskT", a1=2, vc=draw(2), twin_ok=False)
-            step("generate", "maskF", a1=1, vc=draw(1), twin_ok=False)
-        step("update", "value", a1=2, vc=draw(2))
-    else:
-        step("update", "none", a1=2)
+        step("project", sel=0)
+    step("update", "none", a1=2)                                       # value kept, args a -> b
+    if kind == "short":
         step("update", "value", a1=1, vc=draw(1))
         step("generate", "value", a1=1, vc=draw(1))
         step("generate", "none", a1=2, twin_ok=False)
+        return H.events
+    step("update", "value", a1=2, vc=draw(2), changed=False)           # overwrite, args unchanged
+    step("update", "maskT", a1=1, vc=draw(1))                          # overwrite through a true mask, b -> a
+    step("update", "maskF", a1=2, vc=draw(2))                          # false mask: value kept, a -> b
+    if kind == "full":
+        step("regenerate", sel=0, a1=1)                                # kept value was drawn under a: b -> a is safe
+        step("regenerate", sel=1, a1=1, twin_ok=False, changed=False)
+        step("regenerate", sel=0, a1=1, changed=False)
+    step("generate", "value", a1=1, vc=draw(1))
+    step("trupdate", "value", a1=2, vc=draw(1))                        # a-sample under b (supports are nested)
+    step("generate", "none", a1=1, twin_ok=False)
+    step("update", "none", a1=2)
+    if ops.endswith("+mask"):
+        step("importance", "maskT", a1=2, vc=draw(2), twin_ok=False)
+        step("generate", "maskF", a1=1, vc=draw(1), twin_ok=False)
+        step("update", "value", a1=2, vc=draw(2))
     return H.events
+
+
+# quick tier: wrappers whose generate-with-Mask events are run (compiled lax.cond over sampler + density; the Mask
+# logic is wrapper independent, the selection covers every dtype / event-shape class and all cheap samplers)
+MASKGEN_QUICK = {"normal", "flip", "bernoulli", "categorical", "dirichlet", "mv_normal", "mv_normal_diag", "poisson", "zipf",
+                 "gamma", "beta", "uniform", "half_normal", "log_normal", "laplace", "weibull", "geometric", "logit_normal",
+                 "gumbel", "half_cauchy", "truncated_cauchy", "truncated_normal", "kumaraswamy", "exponential", "cauchy",
+                 "moyal", "student_t", "multinomial"}
+# wrappers whose density is a slow series (beta_quotient: ~100-iteration hypergeometric loop per log_prob)
+COSTLY = {"beta_quotient"}
 
 
 def _plan(name, tier):
     row = TABLE[name]
     pts = row["pts"]
-    plan = [("scalar", {1: ("pos", pts[0]), 2: ("pos", pts[1])}, True, None, "full"),
-            ("batched", {1: ("pos", pts[2]), 2: ("pos", pts[3])}, True, None, "nomaskgen" if tier == "quick" else "full"),
-            ("sampleshape", {1: ("pos", pts[0]), 2: ("pos", pts[1])}, False, (2,), "short")]
+    sc = {1: ("pos", pts[0]), 2: ("pos", pts[1])}
+    ba = {1: ("pos", pts[2]), 2: ("pos", pts[3])}
+    if tier == "quick" and name in COSTLY:
+        return [("scalar", sc, False, None, "short"), ("batched", ba, False, None, "short")]
+    mask = "+mask" if (tier != "quick" or name in MASKGEN_QUICK) else ""
+    plan = [("scalar", sc, True, None, "full" + mask),
+            ("batched", ba, True, None, "medium" + ("+mask" if tier != "quick" else "")),
+            ("sampleshape", sc, False, (2,), "short")]
     if tier == "thorough":
-        plan.append(("batchedsampleshape", {1: ("pos", pts[2]), 2: ("pos", pts[3])}, False, (2, 2), "full"))
+        plan.append(("batchedsampleshape", ba, False, (2, 2), "medium"))
     for j, kwp in enumerate(row.get("kwonly", [])):
-        plan.append((f"kwonly{j}", {1: ("kw", kwp), 2: ("kw", kwp)}, False, None, "short" if tier == "quick" else "full"))
+        plan.append((f"kwonly{j}", {1: ("kw", kwp), 2: ("kw", kwp)}, False, None, "short" if tier == "quick" else "medium"))
     return plan
 
 
 def _init_worker(disable_jit):
+    # one XLA / Eigen thread per worker process: the pool already uses every core, extra threads only add contention
+    os.environ.setdefault("XLA_FLAGS", "--xla_cpu_multi_thread_eigen=false intra_op_parallelism_threads=1")
+    os.environ.setdefault("OMP_NUM_THREADS", "1")
+    os.environ.setdefault("OPENBLAS_NUM_THREADS", "1")
     import jax
     # NB: do NOT enable jax's persistent compilation cache (jax_compilation_cache_dir) here: on this jax (0.5.2, CPU)
     # executables loaded from it returned wrong numbers for TFP's special-function code (measured: Skellam log_prob off
@@ -468,6 +488,10 @@ def run(prop_id, tier, seed, replay=None):
         with open(replay) as f:
             r = json.load(f)
         names = [r["signature"]["dist"]]
+    only = os.environ.get("VERIF_C24_ONLY")      # development aid: restrict to some wrappers (comma separated)
+    if only:
+        names = [n for n in names if n in only.split(",")]
+        rep.extra["restricted_to"] = names
     tasks = []
     for i, n in enumerate(names):
         for j in range(len(_plan(n, tier))):
